@@ -159,12 +159,21 @@ Print Assumptions C20_rejects_inst_drop.
 Example C20_rejects_inst_drop_ex : exists a b, wf_named a /\ no_asg a /\ nv_diff MInstDrop a b.
 Proof. exact rejects_inst_drop_ex. Qed.
 
-(* all noticed classes *)
+(* a property that only the copy has: an EDIF.properties list on the copy only, one more entry,
+   one more key in an entry (was refuted - C20_refuted, finding C20-extra-properties - while
+   compare_instances walked only the original's properties) *)
+Theorem C20_rejects_prop_added : forall a b, wf_named a -> no_asg a -> nv_diff MPropAdded a b -> cmp_run a b = Reject.
+Proof. exact rejects_prop_added. Qed.
+Print Assumptions C20_rejects_prop_added.
+Example C20_rejects_prop_added_ex : exists a b, wf_named a /\ no_asg a /\ nv_diff MPropAdded a b.
+Proof. exact rejects_prop_added_ex. Qed.
+
+(* all classes (single_diff a b: one difference of any class) *)
 Theorem C20_rejects : forall a b, wf_named a -> no_asg a -> single_diff a b -> compare a b = false.
 Proof. exact rejects_all. Qed.
 Print Assumptions C20_rejects.
 
-Theorem C20_rejects_by_assertion : forall a b m, wf_named a -> no_asg a -> noticed m = true -> nv_diff m a b ->
+Theorem C20_rejects_by_assertion : forall a b m, wf_named a -> no_asg a -> nv_diff m a b ->
   cmp_run a b = Reject.
 Proof. exact rejects_all_assertion. Qed.
 Print Assumptions C20_rejects_by_assertion.
@@ -182,20 +191,22 @@ Print Assumptions C20_rejects_by_assertion.
      nv_equiv_ord a b the same with the pins of every wire listed in the same order
      nv_covered_set a b  like nv_equiv, but the properties of a only have to occur in b
      nv_covered a b      like nv_equiv_ord, but the properties of a only have to occur in b
-     no_extra_props a b : instances of b have no property that the instance of a at the same
-                      place (library, definition, instance name / top) lacks
-   Since the repair of compare_cables (the pins of two wires are matched by key - kind, instance
-   name, port name, index - instead of position by position) the comparer decides nv_covered_set:
-   the order in which the pins of a wire are listed does not matter, like the order of libraries,
-   definitions, ports, cables and instances.                                                    *)
+   "the same properties" = EDIF.properties absent on both sides, or two lists with the same number
+   of entries whose entries at each index have the same keys with ==-equal values.
+   Since the repair of compare_cables (the pins of two wires are matched by key) and of
+   compare_instances (the two property lists must have the same length and the same keys entry
+   by entry; an EDIF.properties list on one side only is a difference) the comparer decides
+   nv_equiv: neither the order of siblings nor the order in which the pins of a wire are listed
+   matters, and nothing else is overlooked.                                                    *)
 
-(* SOUNDNESS: no structural difference is ever accepted.  Nothing is assumed about b. *)
-Theorem C20_sound : forall a b, wf_named a -> no_asg a -> no_extra_props a b ->
-  compare a b = true -> nv_equiv a b.
+(* SOUNDNESS: no structural difference is ever accepted.  Nothing is assumed about b.
+   (Had the side condition no_extra_props a b - finding C20-extra-properties - before the
+   repair of compare_instances.) *)
+Theorem C20_sound : forall a b, wf_named a -> no_asg a -> compare a b = true -> nv_equiv a b.
 Proof. exact compare_sound. Qed.
 Print Assumptions C20_sound.
 
-(* without the side condition on properties: everything but properties only b has *)
+(* the weaker conclusion that held before: a corollary *)
 Theorem C20_sound_covered : forall a b, wf_named a -> no_asg a -> compare a b = true -> nv_covered_set a b.
 Proof. exact compare_sound_covered. Qed.
 Print Assumptions C20_sound_covered.
@@ -203,37 +214,36 @@ Print Assumptions C20_sound_covered.
 (* the hypotheses are satisfiable by two different netlists (siblings in another order at every
    level; corpus/cmp/c20-perm.json, accepted by the real Comparer on every run) *)
 Example C20_sound_ex :
-  exists a b, a <> b /\ wf_named a /\ no_asg a /\ no_extra_props a b /\ compare a b = true.
+  exists a b, a <> b /\ wf_named a /\ no_asg a /\ compare a b = true.
 Proof. exact sound_ex. Qed.
 Print Assumptions C20_sound_ex.
 
-(* the side condition follows from the acceptance of the reverse comparison *)
-Theorem C20_no_extra_props_by_reverse : forall a b, wf_named a -> wf_named b -> no_asg b ->
-  compare b a = true -> no_extra_props a b.
-Proof.
-  intros a b Ha Hb Nb H. apply covered_no_extra; [exact Ha|]. apply compare_sound_covered; assumption.
-Qed.
-Print Assumptions C20_no_extra_props_by_reverse.
-Example C20_no_extra_props_by_reverse_ex :
-  exists a b, a <> b /\ wf_named a /\ wf_named b /\ no_asg b /\ compare b a = true.
+(* acceptance is symmetric (it was not: a netlist with fewer properties was accepted against one
+   with more, not the other way round) *)
+Theorem C20_symmetric : forall a b, wf_named a -> wf_named b -> no_asg a -> no_asg b ->
+  compare a b = true -> compare b a = true.
+Proof. exact compare_symmetric. Qed.
+Print Assumptions C20_symmetric.
+Example C20_symmetric_ex :
+  exists a b, a <> b /\ wf_named a /\ wf_named b /\ no_asg a /\ no_asg b /\ compare a b = true.
 Proof. exact reverse_ex. Qed.
 
 (* contrapositive: ANY difference (one, two, many at once) is refused *)
-Theorem C20_rejects_every_difference : forall a b, wf_named a -> no_asg a -> ~ nv_covered_set a b ->
+Theorem C20_rejects_every_difference : forall a b, wf_named a -> no_asg a -> ~ nv_equiv a b ->
   compare a b = false.
-Proof. exact not_covered_rejected. Qed.
-Print Assumptions C20_rejects_every_difference.
-
-Theorem C20_rejects_every_structural_difference : forall a b, wf_named a -> no_asg a ->
-  no_extra_props a b -> ~ nv_equiv a b -> compare a b = false.
 Proof. exact not_equiv_rejected. Qed.
-Print Assumptions C20_rejects_every_structural_difference.
-Example C20_rejects_every_structural_difference_ex :
-  exists a b, wf_named a /\ no_asg a /\ no_extra_props a b /\ ~ nv_equiv a b.
+Print Assumptions C20_rejects_every_difference.
+Example C20_rejects_every_difference_ex :
+  exists a b, wf_named a /\ no_asg a /\ ~ nv_equiv a b.
 Proof. exact structural_difference_ex. Qed.
 
+Theorem C20_rejects_every_uncovered_difference : forall a b, wf_named a -> no_asg a -> ~ nv_covered_set a b ->
+  compare a b = false.
+Proof. exact not_covered_rejected. Qed.
+Print Assumptions C20_rejects_every_uncovered_difference.
+
 (* two simultaneous differences (corpus/cmp/c20-double.json) *)
-Example C20_two_differences_ex : exists a b, wf_named a /\ wf_named b /\ no_asg a /\ ~ nv_covered_set a b.
+Example C20_two_differences_ex : exists a b, wf_named a /\ wf_named b /\ no_asg a /\ ~ nv_equiv a b.
 Proof. exact double_ex. Qed.
 
 (* COMPLETENESS: every equivalent netlist is accepted, whatever the order of its siblings and
@@ -246,11 +256,6 @@ Definition C20_complete_for_pin_sets : Prop :=
 Theorem C20_complete_for_pin_sets_holds : C20_complete_for_pin_sets.
 Proof. exact complete_for_pin_sets_holds. Qed.
 Print Assumptions C20_complete_for_pin_sets_holds.
-
-Theorem C20_complete_covered_set : forall a b, wf_named a -> wf_named b -> no_asg a -> nv_covered_set a b ->
-  compare a b = true.
-Proof. exact compare_complete_covered_set. Qed.
-Print Assumptions C20_complete_covered_set.
 
 Example C20_complete_for_pin_sets_ex : exists a b, a <> b /\ wf_named a /\ wf_named b /\ no_asg a /\ nv_equiv a b.
 Proof. exact complete_ex. Qed.
@@ -281,10 +286,6 @@ Theorem C20_complete : forall a b, wf_named a -> wf_named b -> nv_equiv_ord a b 
 Proof. exact compare_complete. Qed.
 Print Assumptions C20_complete.
 
-Theorem C20_complete_covered : forall a b, wf_named a -> wf_named b -> nv_covered a b -> compare a b = true.
-Proof. exact compare_complete_covered. Qed.
-Print Assumptions C20_complete_covered.
-
 Example C20_complete_ex : exists a b, a <> b /\ wf_named a /\ wf_named b /\ nv_equiv_ord a b.
 Proof. exact complete_ord_ex. Qed.
 Print Assumptions C20_complete_ex.
@@ -300,28 +301,30 @@ Theorem C20_complete_for_pin_sets_needs_no_asg :
 Proof. exact pin_sets_need_no_asg. Qed.
 Print Assumptions C20_complete_for_pin_sets_needs_no_asg.
 
-(* what compare() decides on named netlists, exactly *)
+(* what compare() decides on named netlists, exactly: structural equivalence
+   (was nv_covered_set before the repair of compare_instances) *)
 Theorem C20_exact : forall a b, wf_named a -> wf_named b -> no_asg a ->
-  (compare a b = true <-> nv_covered_set a b).
-Proof. exact compare_iff_covered. Qed.
+  (compare a b = true <-> nv_equiv a b).
+Proof. exact compare_iff_equiv. Qed.
 Print Assumptions C20_exact.
+Example C20_exact_ex : exists a b, a <> b /\ wf_named a /\ wf_named b /\ no_asg a /\ nv_equiv a b.
+Proof. exact complete_ex. Qed.
 
 Theorem C20_exact_both_ways : forall a b, wf_named a -> wf_named b -> no_asg a -> no_asg b ->
   (compare a b = true /\ compare b a = true <-> nv_equiv a b).
 Proof. exact compare_both_ways. Qed.
 Print Assumptions C20_exact_both_ways.
 
-(* the class-by-class theorems above (C20_rejects_port_dir ... C20_rejects_inst_drop, all 19
-   noticed classes) as corollaries of soundness, in acceptance form: a single difference of a
-   noticed class breaks the covered relation - also when the pins of a wire are taken as a set:
-   a connection moved to another instance, port or bit is a different set of pins - hence is
-   refused *)
-Theorem C20_single_difference_not_equivalent : forall m a b, wf_named a -> noticed m = true ->
-  nv_diff m a b -> ~ nv_covered_set a b.
-Proof. exact nv_diff_not_covered. Qed.
+(* the class-by-class theorems above (C20_rejects_port_dir ... C20_rejects_prop_added, all 20
+   classes) as corollaries of soundness, in acceptance form: a single difference of any class
+   breaks the equivalence - also when the pins of a wire are taken as a set: a connection moved
+   to another instance, port or bit is a different set of pins - hence is refused *)
+Theorem C20_single_difference_not_equivalent : forall m a b, wf_named a ->
+  nv_diff m a b -> ~ nv_equiv a b.
+Proof. exact nv_diff_not_equiv. Qed.
 Print Assumptions C20_single_difference_not_equivalent.
 
-Theorem C20_rejects_by_soundness : forall m a b, wf_named a -> no_asg a -> noticed m = true ->
+Theorem C20_rejects_by_soundness : forall m a b, wf_named a -> no_asg a ->
   nv_diff m a b -> compare a b = false.
 Proof. exact rejects_by_soundness. Qed.
 Print Assumptions C20_rejects_by_soundness.
@@ -331,17 +334,21 @@ Theorem C20_rejects_single_diff_by_soundness : forall a b, wf_named a -> no_asg 
 Proof. exact single_diff_rejected_by_soundness. Qed.
 Print Assumptions C20_rejects_single_diff_by_soundness.
 
-(* each side condition of C20_sound is exactly an open finding, and the hole is real:
-   - no_extra_props: properties that only the second netlist has (C20-extra-properties) *)
-Theorem C20_sound_needs_no_extra_props :
-  exists a b, wf_named a /\ wf_named b /\ no_asg a /\ no_asg b /\ compare a b = true /\ ~ nv_equiv a b.
-Proof. exact extra_props_hole. Qed.
-Print Assumptions C20_sound_needs_no_extra_props.
+(* the former hole (finding C20-extra-properties; was C20_sound_needs_no_extra_props): the second
+   netlist has a property that the first lacks - covered, not equivalent; accepted before the
+   repair, rejected now, in both directions (corpus/cmp/c20-prop-new.json, replayed on the real
+   Comparer on every run) *)
+Example C20_extra_properties_rejected :
+  exists a b, wf_named a /\ wf_named b /\ no_asg a /\ no_asg b /\ nv_covered_set a b /\ ~ nv_equiv a b /\
+              cmp_run a b = Reject /\ cmp_run b a = Reject.
+Proof. exact extra_props_rejected. Qed.
+Print Assumptions C20_extra_properties_rejected.
 
+(* the remaining side condition of C20_sound is an open finding, and the hole is real: *)
 (* - no_asg: assignment instances are not compared, not even when comparing both ways
      (C20-assignment-instances-not-compared) *)
 Theorem C20_sound_needs_no_asg :
-  exists a b, wf_named a /\ wf_named b /\ compare a b = true /\ compare b a = true /\ ~ nv_covered_set a b.
+  exists a b, wf_named a /\ wf_named b /\ compare a b = true /\ compare b a = true /\ ~ nv_equiv a b.
 Proof. exact assignment_hole. Qed.
 Print Assumptions C20_sound_needs_no_asg.
 (* - wf_named: unnamed elements and names with * or ? : C20_refuted_unnamed,
@@ -354,21 +361,36 @@ Theorem C20_lower_index_not_compared :
 Proof. exact lower_index_witness. Qed.
 Print Assumptions C20_lower_index_not_compared.
 
-(* ---- the property at full strength (every class, no exclusion of assignment names) ---- *)
+(* ---- the property at full strength on named netlists without assignment-style names: every
+   class of difference the property lists, a property only the copy has included, is rejected
+   by an AssertionError (was refuted: C20_refuted, witness corpus/cmp/c20-prop-new.json) ---- *)
+Definition C20_full_named : Prop :=
+  forall a, wf_named a -> no_asg a ->
+    compare a a = true /\ forall m b, nv_diff m a b -> cmp_run a b = Reject.
+
+Theorem C20_full_named_holds : C20_full_named.
+Proof. exact full_named_holds. Qed.
+Print Assumptions C20_full_named_holds.
+Example C20_full_named_ex : wf_named w_base /\ no_asg w_base /\ exists m b, nv_diff m w_base b.
+Proof. split; [exact w_base_wf|split; [exact w_base_noasg|exists MPropAdded, w_prop_new; exact w_prop_new_diff]]. Qed.
+
+(* the witnesses of the former refutation, replayed on the real Comparer on every run:
+   EDIF.properties only on the copy (c20-prop-new.json), one more entry (c20-prop-added-entry.json) *)
+Example C20_extra_property_rejected :
+  nv_diff MPropAdded w_base w_prop_new /\ cmp_run w_base w_prop_new = Reject /\
+  nv_diff MPropAdded w_base w_prop_entry /\ cmp_run w_base w_prop_entry = Reject.
+Proof. exact extra_property_rejected. Qed.
+Print Assumptions C20_extra_property_rejected.
+
+(* without the exclusion of assignment names the full statement still fails
+   (finding C20-assignment-instances-not-compared; witness corpus/cmp/c20-asg-ref.json) *)
 Definition C20_full : Prop :=
   forall a, wf_named a ->
     compare a a = true /\ forall m b, nv_diff m a b -> compare a b = false.
 
-(* refuted: a property that only the copy has is not seen
-   (witness corpus/cmp/c20-prop-new.json, replayed on the real Comparer on every run) *)
 Theorem C20_refuted : ~ C20_full.
-Proof. exact refuted_extra_property. Qed.
+Proof. exact refuted_full_by_assignment. Qed.
 Print Assumptions C20_refuted.
-
-Theorem C20_refuted_extra_property_entry :
-  exists a b, wf_named a /\ no_asg a /\ nv_diff MPropAdded a b /\ compare a b = true.
-Proof. exact refuted_extra_property_entry. Qed.
-Print Assumptions C20_refuted_extra_property_entry.
 
 (* the hypothesis no_asg of C20_rejects is needed: instances named SDN_Assignment_* are skipped,
    and between two of them only the width field of the name is compared
@@ -402,10 +424,27 @@ Theorem C20_refuted_self_unnamed_instance : exists a, cmp_run a a = AttrErr.
 Proof. exact refuted_self_unnamed_instance. Qed.
 Print Assumptions C20_refuted_self_unnamed_instance.
 
-(* differences that raise, but not AssertionError: a property the copy lacks (KeyError), a
-   renamed element (StopIteration) (witnesses c20-prop-dropped-key.json, c20-renamed-port.json) *)
-Theorem C20_missing_property_is_keyerror : exists a b, wf_named a /\ no_asg a /\ cmp_run a b = KeyErr.
-Proof. exact missing_property_is_keyerror. Qed.
-Theorem C20_renamed_element_is_stopiteration : exists a b, wf_named a /\ no_asg a /\ cmp_run a b = StopIter.
-Proof. exact renamed_element_is_stopiteration. Qed.
-Print Assumptions C20_renamed_element_is_stopiteration.
+(* differences that raised, but not AssertionError (findings C20-missing-property-not-assertion,
+   C20-renamed-element-stopiteration): a property the copy lacks (was KeyError), a renamed element
+   (was StopIteration) are rejected by an AssertionError now, in both directions (witnesses
+   c20-prop-dropped-key.json, c20-renamed-port.json, replayed on the real Comparer on every run);
+   the general statements are C20_rejects_by_assertion / C20_full_named_holds: every single
+   difference of a named netlist gives Reject, no other exception *)
+Example C20_missing_property_is_rejected :
+  exists a b, wf_named a /\ no_asg a /\ cmp_run a b = Reject /\ cmp_run b a = Reject.
+Proof. exact missing_property_is_rejected. Qed.
+Example C20_renamed_element_is_rejected :
+  exists a b, wf_named a /\ no_asg a /\ cmp_run a b = Reject /\ cmp_run b a = Reject.
+Proof. exact renamed_element_is_rejected. Qed.
+Print Assumptions C20_renamed_element_is_rejected.
+
+(* in general: compare_instances on two instances that reference a definition returns or raises
+   AssertionError, whatever their EDIF.properties are (no hypothesis on the property lists: the
+   asserts on the number of entries and on the key sets guard properties_composer[x][key]) *)
+Theorem C20_compare_instances_raises_only_assertion : forall o c, i_ref o <> None -> i_ref c <> None ->
+  cmp_inst (Some o) (Some c) = Accept \/ cmp_inst (Some o) (Some c) = Reject.
+Proof. exact cmp_inst_assert_only. Qed.
+Print Assumptions C20_compare_instances_raises_only_assertion.
+Example C20_compare_instances_raises_only_assertion_ex :
+  exists o c, i_ref o <> None /\ i_ref c <> None /\ i_props o <> i_props c /\ i_props o <> None /\ i_props c <> None.
+Proof. exact cmp_inst_assert_only_ex. Qed.
